@@ -239,6 +239,19 @@ fn check_assertion<B: StarkField>(fname: &str, c: &Case, all: &[Asr], rng: &mut 
                     if got2 != exp {
                         out.push(("overlap-sym".into(), format!("{:?}.overlaps_with(a) = {got2}", bb)));
                     }
+                    // the constraint set as prover and verifier build it: two assertions of one column are refused exactly when
+                    // they name a common cell (identical cells included), and otherwise both become constraints
+                    if n <= 16 && bb.col == a.col {
+                        let ctx2 = context::<B>(n, 2);
+                        let (x, y) = (asr.clone(), basr.clone());
+                        let built = guarded(move || BoundaryConstraints::<B>::new(&ctx2, vec![x, y], vec![], &[B::ONE, B::ONE]).main_constraints().iter().map(|g| g.constraints().len()).sum::<usize>());
+                        match (built, exp) {
+                            (Ok(k), true) => out.push(("set-accepts-overlap".into(), format!("a constraint set with {:?}, which names a common cell, is accepted ({k} constraints)", bb))),
+                            (Ok(k), false) if k != 2 => out.push(("set-drops-assertion".into(), format!("a constraint set with the disjoint {:?} has {k} constraints", bb))),
+                            (Err(p), false) => out.push(("set-refuses-disjoint".into(), format!("a constraint set with the disjoint {:?} is refused: {p}", bb))),
+                            _ => {},
+                        }
+                    }
                 }
             }
         }
